@@ -1241,6 +1241,8 @@ func runC04(c *ctx) {
 		}
 	}
 	c.stat("jobs", int64(len(jobs)))
+	// iteration-level MCTS cases (model correspondence), see mcts_steps.go
+	runMctsSteps(c)
 }
 
 // ---------- replay ----------
